@@ -850,7 +850,7 @@ def planted_check(tier, seed, pool):
     three = sym_vectors(3, P_SYMS)
     if tier != 'thorough':
         rng = random.Random(seed * 13 + 5)
-        three = rng.sample(three, 150)
+        three = rng.sample(three, 100)
         three.sort(key=lambda t: sum(1 for s in t if s != 'B'))
     blocks += three
     tasks = [{'blocks': blocks[i:i + P_BLOCK], 'seed': seed} for i in range(0, len(blocks), P_BLOCK)]
@@ -870,7 +870,7 @@ def _planted_finish(tier, res, nblocks, t0):
         fails.append({'key': key, 'what': f['what'], 'replay': f['replay']})
     return {
         'name': 'C11.monitor.planted',
-        'bound': f'{nblocks} planted content vectors: all of length 1 and 2' + (', all of length 3' if tier == 'thorough' else ', 150 seeded of length 3') +
+        'bound': f'{nblocks} planted content vectors: all of length 1 and 2' + (', all of length 3' if tier == 'thorough' else ', 100 seeded of length 3') +
                  f' over {len(P_SYMS)} cell contents (never written, int, float, negative, text, ="" formula, numeric text, TRUE, FALSE, date, '
                  'number-valued formula incl. one reading a cell far beyond the used range), values drawn from pools of 1-9 per content; each vector '
                  'written as cell constants as a column (with a trailing never-written cell), as a row on another sheet (last cell beyond that '
